@@ -34,6 +34,12 @@ def rq_bytes():
 
 
 ob = rec.get("id", "")
+if "run_reactor" in ob:
+    from dul_common import reactor_check
+    _bad = reactor_check()
+    if _bad:
+        done(True, **_bad)
+    done(False, note="the real DUL reactor loop behaved as the contract says on the scripted iterations")
 if "AssociationSocket.send" in ob:
     # a send after the provider closed its own transport: the REAL AssociationSocket.send on a wrapper whose socket is None
     import types
